@@ -956,7 +956,7 @@ func (w *World) readDir(name string) ([]fs.DirEntry, error) {
 	for _, k := range w.sortedPaths() {
 		if k != "/" && strings.HasPrefix(k, pre) && !strings.Contains(k[len(pre):], "/") {
 			c := w.fs[k]
-			out = append(out, dirEntry{fileInfo{name: k[len(pre):], size: int64(len(c.data)), mode: c.mode, mt: w.now(), id: c}})
+			out = append(out, dirEntry{fileInfo{name: k[len(pre):], size: int64(len(c.data)), mode: c.mode, mt: time.Unix(c.mt, 0).UTC(), id: c}})
 		}
 	}
 	ev.N = len(out)
